@@ -124,7 +124,9 @@ func LoadVerifier(repo, verifDir string) (*Verifier, error) {
 	cfg := &packages.Config{
 		Mode:       packages.LoadAllSyntax,
 		Dir:        repo,
-		BuildFlags: []string{"-tags=verif"},
+		// no build tags: the packages are loaded in the configuration the tests and the users build (the contract
+		// files, which are behind the tag verif, are comment-only and read as text); AuxCheck reports every file
+		// that this configuration leaves out
 		Env:        append(os.Environ(), "GOFLAGS=-mod=mod", "GOPROXY=off"),
 	}
 	pk, err := packages.Load(cfg, "./...")
